@@ -298,6 +298,24 @@ func (p *Posix) doesBucketAndObjectExist(bucket, object string) error {
 	return nil
 }
 
+// doesCurrentObjectExist is doesBucketAndObjectExist for calls that address
+// the current version of a key: a key whose current version is a delete
+// marker reads as missing (the marker's file still carries the attributes
+// of the version it was made from).
+func (p *Posix) doesCurrentObjectExist(bucket, object string) error {
+	err := p.doesBucketAndObjectExist(bucket, object)
+	if err != nil {
+		return err
+	}
+	if p.versioningEnabled() {
+		isDelMarker, err := p.isObjDeleteMarker(bucket, object)
+		if err == nil && isDelMarker {
+			return s3err.GetAPIError(s3err.ErrNoSuchKey)
+		}
+	}
+	return nil
+}
+
 func (p *Posix) ListBuckets(_ context.Context, input s3response.ListBucketsInput) (s3response.ListAllMyBucketsResult, error) {
 	fis, err := listBucketFileInfos(p.bucketlinks)
 	if err != nil {
@@ -4913,7 +4931,7 @@ func (p *Posix) DeleteBucketTagging(ctx context.Context, bucket string) error {
 }
 
 func (p *Posix) GetObjectTagging(_ context.Context, bucket, object string) (map[string]string, error) {
-	err := p.doesBucketAndObjectExist(bucket, object)
+	err := p.doesCurrentObjectExist(bucket, object)
 	if err != nil {
 		return nil, err
 	}
@@ -4945,7 +4963,7 @@ func (p *Posix) getAttrTags(bucket, object string) (map[string]string, error) {
 func (p *Posix) PutObjectTagging(_ context.Context, bucket, object string, tags map[string]string) error {
 	// the key must name an existing object (with the sidecar metadata store
 	// the attribute could be stored for a name that has no object at all)
-	err := p.doesBucketAndObjectExist(bucket, object)
+	err := p.doesCurrentObjectExist(bucket, object)
 	if err != nil {
 		return err
 	}
